@@ -98,6 +98,12 @@ fn fam_lzma(ctx: &CaseCtx, cov: &mut Cov) -> CaseOut {
         Props::new(lc, rng.below(5 - lc as u64) as u32, rng.below(5) as u32)
     };
     let dict: u32 = *rng.pick(&[64u32, 4096, 4096, 1 << 16]);
+    // the memory limit is a constructor parameter like the others: a quarter of the histories use
+    // one (below, at or above the dictionary size), identically for the reused and the new decoder
+    let memlimit: Option<usize> = if rng.chance(1, 4) { Some(*rng.pick(&[0usize, 50, 1000, 4095, 4096, 5000, 1 << 16, 1 << 20])) } else { None };
+    if memlimit.is_some() {
+        cov.name("histories_with_a_memory_limit", 1);
+    }
     // pool of streams for these properties
     let mut pool: Vec<(Vec<u8>, u64, bool)> = Vec::new(); // (payload, true length, has marker)
     for _ in 0..4 {
@@ -126,7 +132,7 @@ fn fam_lzma(ctx: &CaseCtx, cov: &mut Cov) -> CaseOut {
         return out;
     }
     let initial_size: Option<u64> = if rng.chance(1, 2) { Some(pool[0].1) } else { None };
-    let mut dec = match sut::raw_lzma_new(props.lc, props.lp, props.pb, dict, initial_size, None) {
+    let mut dec = match sut::raw_lzma_new(props.lc, props.lp, props.pb, dict, initial_size, memlimit) {
         Ok(d) => d,
         Err(v) => {
             out.harness_error(format!("constructor: {}", v.short()));
@@ -222,7 +228,7 @@ fn fam_lzma(ctx: &CaseCtx, cov: &mut Cov) -> CaseOut {
             }
             _ => {}
         }
-        let mut fresh = match sut::raw_lzma_new(props.lc, props.lp, props.pb, dict, size_in_effect, None) {
+        let mut fresh = match sut::raw_lzma_new(props.lc, props.lp, props.pb, dict, size_in_effect, memlimit) {
             Ok(d) => d,
             Err(v) => {
                 out.harness_error(format!("constructor: {}", v.short()));
@@ -274,7 +280,7 @@ fn fam_lzma(ctx: &CaseCtx, cov: &mut Cov) -> CaseOut {
                 }
             }
             for cand in &cands {
-                let mut a = match sut::raw_lzma_new(props.lc, props.lp, props.pb, dict, initial_size, None) {
+                let mut a = match sut::raw_lzma_new(props.lc, props.lp, props.pb, dict, initial_size, memlimit) {
                     Ok(d) => d,
                     Err(_) => break,
                 };
@@ -291,7 +297,7 @@ fn fam_lzma(ctx: &CaseCtx, cov: &mut Cov) -> CaseOut {
                         }
                     }
                 }
-                let mut b = match sut::raw_lzma_new(props.lc, props.lp, props.pb, dict, size_in_effect, None) {
+                let mut b = match sut::raw_lzma_new(props.lc, props.lp, props.pb, dict, size_in_effect, memlimit) {
                     Ok(d) => d,
                     Err(_) => break,
                 };
